@@ -245,3 +245,59 @@ def replay(ctx, rp, b):
         log("model:         ", repr(m.raw(model_req(text, fn))[:2000]))
         m.close()
     return 0
+
+
+def pristine_outcomes(items):
+    """[(text, filename)] -> outcomes, each computed in a fresh interpreter (harness/pristine.py)"""
+    import subprocess, sys
+    if not items:
+        return []
+    p = subprocess.run([sys.executable, os.path.join(os.path.dirname(os.path.abspath(__file__)), "pristine.py")],
+                       input=json.dumps([[t, f] for t, f in items]), capture_output=True, text=True, timeout=1800,
+                       env=dict(os.environ, PYTHONHASHSEED="0"))
+    if p.returncode != 0:
+        raise RuntimeError("pristine.py failed: " + p.stderr[-800:])
+    return json.loads(p.stdout)
+
+
+# Hand-written programs for constructs the grammar-directed generator produces rarely or never, plus the inputs of every
+# defect that was repaired by a "fix:" commit (a fixed defect that returns is reported again).  (text, is_valid_C11)
+ZOO = [
+    # _Atomic(type-name) specifier everywhere a type can be written
+    ("void f(void){ x = (_Atomic(int)) y; z = sizeof(_Atomic(int *)); w = _Alignof(_Atomic(struct S *)); }", False),
+    ("void g(_Atomic(int) *, _Atomic(char) a, const _Atomic(long) * const, _Atomic(int) b[2]);", True),
+    ("struct S { _Atomic(int) m; _Atomic(char *) p; }; typedef _Atomic(int) AT; AT v;", True),
+    ("_Atomic(int) ga; static _Atomic(unsigned long) gb = 1;", True),
+    ("int k = sizeof(_Atomic(int)) + sizeof(const _Atomic(int) *);", True),
+    ("void h(void){ _Atomic(int) loc = 0; for (_Atomic(int) i = 0; i < 3; i++) loc += i; }", True),
+    ("struct S { _Atomic(int); };", False), ("union U { const _Atomic(int); int y; };", False), ("struct S { int; };", False),
+    # alignment specifiers in odd places
+    ("int x = sizeof(_Alignas(8));", False), ("void f(void){ x = (_Alignas(4)) y; }", False), ("int x = sizeof(_Alignas(8) int);", False),
+    ("struct S { _Alignas(8) int a; _Alignas(double) char b; }; _Alignas(16) static int z;", True),
+    # static assertions wherever a statement or declaration can stand
+    ("void f(void){ if (x) _Static_assert(1, \"a\"); }", False), ("void f(void){ while (x) _Static_assert(1, \"a\"); }", False),
+    ("void f(void){ for (;;) _Static_assert(1,\"a\"); L: _Static_assert(1,\"b\"); }", False),
+    ("void f(void){ switch (x) { case 1: _Static_assert(1, \"a\"); default: _Static_assert(2, \"b\"); } }", False),
+    ("_Static_assert(sizeof(int) >= 2, \"int\"); void f(void){ _Static_assert(1, \"in block\"); int a; _Static_assert(2, \"after decl\"); }", True),
+    # earlier repaired defects
+    ("}", False), ("int struct T;", False), ("int f(T enum x", False), ("int x = 'uu';", False), ("const;", False),
+    ("void f(){ int a[*p]; }", True), ("void f(void){ x = (int){1} + y; (int){1}; }", True), ("struct S { int : 3; unsigned : 0; };", True),
+    ("char *s = u8\"a\" u8\"b\"; char *t = \"a\" \"b\" \"c\";", True),
+    # old-style definitions, odd declarators
+    ("int f(a, b, c) int a; char *b; double c; { return a; }", True), ("int g(a) register int a; { return a; }", True),
+    ("int (*fp(int a))(double) { return 0; }", True), ("void (*signal(int sig, void (*func)(int)))(int);", True),
+    ("int a[static 3], b[const 3]; void h(int m[static restrict 2], int n[*], int (*q)[*]);", False),
+    ("typedef int T; void f(T T); void g(void){ T T; T = 1; } struct S { T T; };", True),
+    ("struct S { unsigned a:1, :3, b:2; int : 0; signed c : 'a'; };", True), ("int static x; long unsigned typedef UL; struct P { int a; } static sp;", True),
+    ("enum E { A = -1, B = (-1), C = sizeof(int), D = A ? 1 : 2, F, };", True),
+    # statements
+    ("void f(void){ if (a) if (b) x; else y; else z; do ; while (0); for (;;) ; switch (x) ; goto L; L: ; }", True),
+    ("void f(void){ switch (x) { int tmp; case 1: case 2: a; b; break; default: ; } }", True),
+    ("void f(void){\n#pragma omp parallel\n for (;;)\n#pragma omp inner\n x;\n}", True),
+    ("void f(void){ return (a, b), c; x = y = z; p = q ? r : s ? t : u; }", True),
+    ("void f(void){ a = sizeof p->len; b = sizeof (p)->len; c = sizeof (a)/sizeof (a)[0]; }", True),
+    ("void f(void){ x = a - b * c - d; y = a == b * c + d; z = a || b == c && d; w = - -a + +b - ~c; }", True),
+    ("void f(void){ x = (a)(b); y = (T)(b); z = (a)[1]; s.m[1].n->o++; f(1)(2); (*fp)(3); }", False),
+    ("int a[] = { [2] = 5, [5 ... 7] = 7, 9 }; struct S s = { .a = 1, .in.c = 3, .arr[1] = 2 }, *sp = &(struct S){ .a = 2 };", False),
+    ("# 1 \"a.c\"\nint a;\n# 1 \"inc.h\" 1\nint b;\n# 2 \"a.c\" 2\nint c;\n#line 10\nint d;\n# 20\n# 30 \"z.c\"\nint e;", True),
+]
